@@ -18,11 +18,30 @@ class Lowered:
         self._stack: Set[Tuple[str, str]] = set()
 
     # ------------------------------------------------------------ attributes
-    def attr_lowered(self, attr: str) -> Tuple[bool, str]:
-        """Every store `<x>.attr = v` in the package stores a lowered value (or None)."""
-        if attr in self._attr_cache:
-            return self._attr_cache[attr]
-        self._attr_cache[attr] = (True, 'assumed during recursion')
+    def _recv_family(self, f: FuncInfo, recv: ast.AST) -> Set[str]:
+        """Classes (with their library ancestors and descendants) the receiver may be."""
+        names: List[str] = []
+        if isinstance(recv, ast.Name) and f.cls is not None and f.params and recv.id == f.params[0]:
+            names = [f.cls.full]
+        else:
+            td = self.ctx.ty.type_of(f.module.name, recv)
+            names = self.ctx.ty.inst_names(td)
+        fam: Set[str] = set()
+        for n in names:
+            ci = self.prog.classes.get(n)
+            if ci is None:
+                fam.add(n)
+                continue
+            fam.update(c.full for c in ci.mro())
+            fam.update(c.full for c in ci.all_subclasses())
+        return fam
+
+    def attr_lowered(self, attr: str, fam: Optional[Set[str]] = None) -> Tuple[bool, str]:
+        """Every store `<x>.attr = v` (x of a class in `fam`, if given) stores a lowered value (or None)."""
+        ck = attr + '|' + ','.join(sorted(fam or []))
+        if ck in self._attr_cache:
+            return self._attr_cache[ck]
+        self._attr_cache[ck] = (True, 'assumed during recursion')
         n = 0
         res = (True, '')
         for f in self.prog.functions.values():
@@ -34,13 +53,17 @@ class Lowered:
                     tgts = [st.target]
                 for t in tgts:
                     if isinstance(t, ast.Attribute) and t.attr == attr:
+                        if fam:
+                            sf = self._recv_family(f, t.value)
+                            if sf and not (sf & fam):
+                                continue
                         n += 1
                         ok, why = self.is_lowered(f, st.value)  # type: ignore[union-attr]
                         if not ok:
                             res = (False, f'{f.where()}: `{norm(st)}` stores a value not known to be lower-cased ({why})')
         if n == 0:
             res = (False, f'no definition of attribute `{attr}` found')
-        self._attr_cache[attr] = res
+        self._attr_cache[ck] = res
         return res
 
     # ----------------------------------------------------------- expressions
@@ -60,7 +83,7 @@ class Lowered:
             b = self.is_lowered(f, e.orelse, depth + 1)
             return (a[0] and b[0]), (a[1] if not a[0] else b[1])
         if isinstance(e, ast.Attribute):
-            ok, why = self.attr_lowered(e.attr)
+            ok, why = self.attr_lowered(e.attr, self._recv_family(f, e.value) or None)
             return ok, (f'attribute `{e.attr}` is a lower-cased twin' if ok else why)
         if isinstance(e, ast.Name):
             okc, v = self.prog.try_fold(f.module, e)
